@@ -116,27 +116,27 @@ type Exec struct {
 
 // Sched is the scheduler of one execution.
 type Sched struct {
-	opts      Options
-	gs        []*G
-	running   *G
-	runq      []*G
-	prev      []*G // participants of the previous transition
-	pos       int
-	decisions []Decision
-	choices   []int
-	steps     int
-	aborted   bool
-	outcome   string
-	finished  chan struct{}
-	realWG    sync.WaitGroup
-	nextObj   int
-	hash      uint64
-	trace     []string
-	mainDone  bool
+	opts       Options
+	gs         []*G
+	running    *G
+	runq       []*G
+	prev       []*G // participants of the previous transition
+	pos        int
+	decisions  []Decision
+	choices    []int
+	steps      int
+	aborted    bool
+	outcome    string
+	finished   chan struct{}
+	realWG     sync.WaitGroup
+	nextObj    int
+	hash       uint64
+	trace      []string
+	mainDone   bool
 	leftBehind int
-	engineErr string
-	maxLive   int
-	userState map[string]int
+	engineErr  string
+	maxLive    int
+	userState  map[string]int
 }
 
 var cur *Sched
